@@ -41,15 +41,39 @@ def facts (n : Node) (i : Nat) (f : F) : List String :=
   match f.kind with
   | "bool" => [line "" (tag ++ ["GB@" ++ slot ++ neg]), line "Set" (settag ++ ["SB@" ++ slot ++ neg])]
   | "void" => if f.disc.isSome then [line "Set" settag] else []
-  | "text" => [line "" (tag ++ ["Ptr@" ++ slot]), line "Set" (settag ++ ["SetText@" ++ slot]), line "Has" (tag ++ ["HasPtr@" ++ slot])]
-  | "data" => [line "" (tag ++ ["Ptr@" ++ slot]), line "Set" (settag ++ ["SetData@" ++ slot]), line "Has" (tag ++ ["HasPtr@" ++ slot])]
+  -- a Text/Data field with a schema default reads a null slot as that default, so its setter must never store null:
+  -- SetNewText (always allocates) instead of SetText (null for ""), and a nil []byte is replaced by an empty one
+  | "text" =>
+    if f.mask = 0 then
+      [line "" (tag ++ ["Ptr@" ++ slot]), line "Set" (settag ++ ["SetText@" ++ slot]), line "Has" (tag ++ ["HasPtr@" ++ slot])]
+    else
+      [line "" (tag ++ ["Ptr@" ++ slot, "TextDefault=d" ++ toString f.mask]), line "Set" (settag ++ ["SetNewText@" ++ slot]),
+       line "Has" (tag ++ ["HasPtr@" ++ slot])]
+  | "data" =>
+    if f.mask = 0 then
+      [line "" (tag ++ ["Ptr@" ++ slot]), line "Set" (settag ++ ["SetData@" ++ slot]), line "Has" (tag ++ ["HasPtr@" ++ slot])]
+    else
+      [line "" (tag ++ ["Ptr@" ++ slot, "DataDefault=d" ++ toString f.mask]), line "Set" (settag ++ ["nilempty", "SetData@" ++ slot]),
+       line "Has" (tag ++ ["HasPtr@" ++ slot])]
+  -- an interface field: the discriminant is stored before anything else, also when the client is null (early return)
+  | "iface" =>
+    [line "" (tag ++ ["Ptr@" ++ slot]), line "Set" (settag ++ ["SetPtr@" ++ slot, "SetPtr@" ++ slot]), line "Has" (tag ++ ["HasPtr@" ++ slot])]
   | "any" => [line "" (tag ++ ["Ptr@" ++ slot]), line "Set" (settag ++ ["SetPtr@" ++ slot]), line "Has" (tag ++ ["HasPtr@" ++ slot])]
   | "struct" | "list" =>
     [line "" (tag ++ ["Ptr@" ++ slot]), line "Set" (settag ++ ["SetPtr@" ++ slot]), line "Has" (tag ++ ["HasPtr@" ++ slot]),
      line "New" (settag ++ ["SetPtr@" ++ slot])]
   | _ => ["?"]
 
+def hexNats (s : String) : Option (List Nat) :=
+  if s = "-" then some [] else (Driver.parseHex s).map (fun l => l.map UInt8.toNat)
+
 def run : List String → String
+  | ["textslot", v, d, new] =>     -- `Struct.SetText` / `SetNewText` followed by `HasPtr` and `Ptr.TextDefault` (`Model.Layout`)
+    match hexNats v, hexNats d with
+    | some v, some d =>
+      let slot := if new = "1" then structSetNewText v else structSetText v
+      "has=" ++ toString slot.isSome ++ " get=" ++ Driver.toHex ((textDefault slot d).map UInt8.ofNat)
+    | _, _ => "bad-op"
   | [dw, ptrs, discOff, fields] =>
     match dw.toNat?, ptrs.toNat?, discOff.toNat?, (fields.splitOn ",").mapM parseField with
     | some dw, some ptrs, some discOff, some fs =>
